@@ -211,6 +211,44 @@ def run(prog, chk):
         chk.ob("R3.random-index-non-negative", "_roll_random", okpos, rr.loc, "%s = %s" % (num, [unparse(d) for d in defs]))
     chk.ob("R3.random-index-below-n", "_roll_random", okr, rr.loc, detail)
 
+    # R3b: the function is total and unbiased at the extremes for every width: evaluated for n = 2**bits, bits 0..24,
+    # against an all-ones and an all-zeros random source.  The function touches the random bytes only through x[0],
+    # x[1:] and the byte mask, and n only through bit_length(n - 1) and `num < n`, so bits mod 8 x (bits == 0) x
+    # (one byte / several bytes) is a complete quotient; 0..24 covers each class at least once.
+    def _bit_length(v):
+        return v.bit_length()
+
+    def _byte_mask(c, mask):
+        return bytes([c & mask])
+
+    def _inflate(b, always_positive=False):
+        return int.from_bytes(b, "big") if b else 0
+    badr = None
+    nev = 0
+    for bits in range(0, 25):
+        n = 1 << bits
+        for fill, want in ((0xFF, n - 1), (0x00, 0)):
+            nev += 1
+            asked = []
+
+            def _urandom(k, fill=fill, asked=asked):
+                asked.append(k)
+                if len(asked) > 4:
+                    raise Refuse(None, "more than 4 draws")
+                return bytes([fill]) * k
+            it = Interp(intrinsics={"util.bit_length": _bit_length, "os.urandom": _urandom, "byte_mask": _byte_mask,
+                                    "util.inflate_long": _inflate, "pow": pow}, arith=True)
+            try:
+                kind, val = it.call_function(rr.node, {n_p: n})
+            except Refuse as e:
+                raise AnalysisError("primes._roll_random", "not evaluable: %s" % (e,))
+            if (kind, val) != ("return", want) and badr is None:
+                badr = "n = 2**%d with every random byte 0x%02X: %s %r (want %d)" % (bits, fill, kind, val, want)
+    chk.count("R3 _roll_random evaluations", nev)
+    chk.ob("R3.random-index-total-and-full-range", "_roll_random", badr is None, rr.loc,
+           "%d evaluations (n = 2**0 .. 2**24; all-ones source must give n - 1, all-zeros source 0, no exception)%s" % (
+               nev, "" if badr is None else "; first failing: " + badr))
+
     # ---- R4 ----------------------------------------------------------------------------------------------
     kg = prog.func("KexGex._parse_kexdh_gex_request")
     fk = Flow(prog, kg, implicit=False)
